@@ -489,6 +489,25 @@ def _model_invariance(rep, pp):
                 if ref.shape != got.shape or not np.allclose(got, ref, rtol=1e-7, atol=1e-9 * (1 + np.max(np.abs(ref)))):
                     rep.violation("a flow model with scaled length and mass units gives the same SI solution", "single-phase flow", inputs=vals,
                                   detail=f"max diff {np.max(np.abs(got - ref)) if ref.shape == got.shape else 'shape'}")
+
+            # the same with gravity (a vector source with the dimension of an acceleration)
+            class MG(SquareDomainOrthogonalFractures, pp.constitutive_laws.GravityForce, SinglePhaseFlow):
+                bc_values_pressure = M.bc_values_pressure
+
+            M_plain = M
+            try:
+                M = MG  # noqa: F841  (solve() builds M)
+                refg, _ = solve(pp.Units())
+                for vals in ({"m": 2.0, "kg": 3.0}, {"m": 0.1, "kg": 50.0}):
+                    got, m = solve(pp.Units(**vals))
+                    sw.case(("gravity",) + tuple(sorted(vals.items())), True, sample=dict(vals, gravity=True))
+                    if refg.shape != got.shape or not np.allclose(got, refg, rtol=1e-7, atol=1e-9 * (1 + np.max(np.abs(refg)))):
+                        rep.violation("a flow model with scaled length and mass units gives the same SI solution", "single-phase flow with gravity", inputs=dict(vals, gravity=True),
+                                      detail=f"max diff {np.max(np.abs(got - refg)) if refg.shape == got.shape else 'shape'}")
+                if np.allclose(refg, ref):
+                    rep.note("gravity variant of the scaled flow model: gravity has no effect on the pressure (vacuous)")
+            finally:
+                M = M_plain
         except Exception as e:  # noqa
             rep.note(f"scaled-model run not available in this tree: {type(e).__name__}: {str(e)[:200]}")
 
